@@ -115,7 +115,52 @@ pub struct Shard {
     sig_counts: BTreeMap<String, u64>,
 }
 
+/// Text of a panic payload.
+pub fn panic_text(p: &Box<dyn std::any::Any + Send>) -> String {
+    p.downcast_ref::<String>().cloned().or_else(|| p.downcast_ref::<&str>().map(|s| s.to_string())).unwrap_or_else(|| "?".into())
+}
+
+thread_local! {
+    static LAST_PANIC_LOCATION: std::cell::RefCell<String> = const { std::cell::RefCell::new(String::new()) };
+}
+
+/// Install a panic hook that remembers where the last panic of this thread happened (and prints
+/// nothing unless VH_PANICS is set).
+pub fn quiet_panics() {
+    std::panic::set_hook(Box::new(|i| {
+        let loc = i.location().map(|l| format!("{}:{}", l.file(), l.line())).unwrap_or_default();
+        LAST_PANIC_LOCATION.with(|c| *c.borrow_mut() = loc);
+        if std::env::var("VH_PANICS").is_ok() {
+            eprintln!("{i}");
+        }
+    }));
+}
+
 impl Shard {
+    /// Run one case; a panic that escapes it - in ethercrab or in the harness - is recorded instead
+    /// of killing the shard: a panic raised inside /repo's sources is a violation
+    /// `<property>:panic:<file>:<message class>` (every property promises a value or an error, not an
+    /// abort), one raised by the harness itself makes the run inconclusive.
+    pub fn guard_case(&mut self, case: u64, f: impl FnOnce(&mut Shard)) {
+        let r = std::panic::catch_unwind(std::panic::AssertUnwindSafe(|| f(self)));
+        if let Err(p) = r {
+            let msg = panic_text(&p);
+            let loc = LAST_PANIC_LOCATION.with(|c| c.borrow().clone());
+            let cls: String = msg.chars().filter(|c| !c.is_ascii_digit()).take(40).collect::<String>().trim().replace(' ', "-");
+            // the harness crate's own files are reported with a relative path (src/...), /repo's with
+            // an absolute one; panics raised in a dependency or in core on behalf of ethercrab code
+            // (no #[track_caller]) also count as ethercrab's
+            let harness = loc.starts_with("src/") || loc.contains("/verif/") || loc.is_empty();
+            if !harness {
+                let file = loc.split("/repo/").last().unwrap_or(&loc).split(':').next().unwrap_or("").to_string();
+                let prop = self.property.clone();
+                self.violation(&format!("{prop}:panic:{file}:{cls}"), format!("panic at {loc}: {msg}"), serde_json::json!({"case": case}));
+            } else {
+                self.inconclusive = Some(format!("harness panic in case {case} at {loc}: {msg}"));
+            }
+        }
+    }
+
     pub fn new(property: &str, args: &Args) -> Self {
         Self {
             property: property.into(),
